@@ -4,16 +4,16 @@ per-system generation / oracle / projection in lib/c16_<system>.py."""
 import json, os, re
 from concurrent.futures import ThreadPoolExecutor
 import vlib
-import c16_dqueue, c16_shcounter, c16_loadbalancer, c16_gcounter, c16_proxy, c16_shopcart, c16_nested
+import c16_dqueue, c16_shcounter, c16_loadbalancer, c16_gcounter, c16_proxy, c16_shopcart, c16_nested, c16_replicatedkv
 
 ID = "C16"
 THEOREMS = "Properties/C16.v"
 HARNESS = ["c16"]
 LEVEL = "proof"
 READY = True
-SYSTEMS = [c16_dqueue, c16_shcounter, c16_loadbalancer, c16_gcounter, c16_proxy, c16_shopcart, c16_nested]
+SYSTEMS = [c16_dqueue, c16_shcounter, c16_loadbalancer, c16_gcounter, c16_proxy, c16_shopcart, c16_nested, c16_replicatedkv]
 # walks per system: quick, thorough
-BUDGET = {"dqueue": (20, 2500), "shcounter": (10, 800), "loadbalancer": (16, 2000), "gcounter": (14, 1500), "proxy": (16, 1500), "shopcart": (12, 1200), "nestedcrdtimpl": (14, 1500)}
+BUDGET = {"dqueue": (20, 1200), "shcounter": (10, 400), "loadbalancer": (16, 1000), "gcounter": (14, 800), "proxy": (16, 800), "shopcart": (12, 600), "nestedcrdtimpl": (14, 700), "replicatedkv": (6, 100)}
 
 TRUSTED_BASE = [
     "Coq 8.16.1 kernel (coqc, full .vo build); vm_compute used in the non-vacuity Examples and in the correspondence evaluation",
@@ -108,6 +108,8 @@ def run(ctx):
         shard = 60
         jobs = []
         for m in SYSTEMS:
+            if m.COQ_MODULE is None:
+                continue
             ws = walks[m.NAME]
             for s in range(0, len(ws), shard):
                 jobs.append((m, s, ws[s:s + shard]))
@@ -161,9 +163,9 @@ MANIFEST = {
              "shopcart (complete for the instance the spec declares, ANodeBench + AWORSet): StrongConvergence, QueryOK, equal knowledge => equal query, add clocks monotone, "
              "remove maps stay Null, no ill-typed step. "
              "proxy (_partial): ProxyOK under the perfect failure detector and NUM_SERVERS < 100, FAIL reported only if all servers stopped, FD accuracy proved; "
-             "assertion freedom open (oracle only). nestedcrdtimpl (_partial): MonotonicState (no component of any replica state decreases in any step), view never decreases; StateSanity as written in the spec is refuted (sums over sets; known finding, witness replayed on the generated code), the bound it intends and assertion freedom are oracle-only. replicatedkv and the *.gotests programs: NOT covered. Tie: the generated archetypes "
+             "assertion freedom open (oracle only). nestedcrdtimpl (_partial): MonotonicState (no component of any replica state decreases in any step), view never decreases; StateSanity as written in the spec is refuted (sums over sets; known finding, witness replayed on the generated code), the bound it intends and assertion freedom are oracle-only. replicatedkv: no model and no theorem, assertion-freedom walks only (oracle: failed assertion / TLA+ type error / crash in any of its five archetypes). The *.gotests programs: NOT covered. Tie: the generated archetypes "
              "run under the real Run loop one attempt at a time over spec-state resources (the specs' mapping macros); each model runs the same schedule in Coq; every "
              "post-state and outcome compared; implementation-side oracles per system on the Go observations."),
-    "level_note": ("Partial as stated per system; systems not modelled are not covered. Trusted: Coq kernel; hand-written models (differential tie: 102 quick / 11000 thorough "
+    "level_note": ("Partial as stated per system; systems not modelled are not covered. Trusted: Coq kernel; hand-written models (differential tie: 108 quick / 5600 thorough "
                    "walks + corpus); spec-state resources replacing the deployment resources; gcounter's merge process is a Go transcription of the spec process."),
 }
